@@ -753,8 +753,10 @@ func (fsm *fsm) stateChange(nextState bgp.FSMState, reason *fsmStateReason) {
 			}
 		}
 
-		fsm.isEBGP = conf.IsEBGPPeer(fsm.gConf)
-		fsm.isConfed = fsm.gConf.IsConfederationMember(conf.Config.PeerAs)
+		// Derive the peer kind from the AS the peer really announced:
+		// Config.PeerAs is 0 when ASN negotiation was skipped.
+		fsm.isEBGP = remoteAS != localAS
+		fsm.isConfed = fsm.gConf.IsConfederationMember(remoteAS)
 		fsm.isTreatAsWithdraw = conf.ErrorHandling.Config.TreatAsWithdraw
 		// reset the state set by the previous session
 		fsm.twoByteAsTrans = false
